@@ -18,7 +18,7 @@ pub trait Exact: Copy + FastMulAdd + Mul<Self, Output = Self> + Div<Self, Output
             Self::obeys_mul_spec(), Self::obeys_div_spec(), Self::obeys_neg_spec(), Self::obeys_add_spec(),
             forall|a: Self, b: Self| #[trigger] a.mul_req(b),
             forall|a: Self, b: Self| #[trigger] a.mul_spec(b).val() == a.val() * b.val(),
-            forall|a: Self, b: Self| b.val() != 0real ==> #[trigger] a.div_req(b),
+            forall|a: Self, b: Self| #[trigger] a.div_req(b),   // float division is total; for b == 0 the value is unspecified
             forall|a: Self, b: Self| b.val() != 0real ==> #[trigger] a.div_spec(b).val() == a.val() / b.val(),
             forall|a: Self| #[trigger] a.neg_req(),
             forall|a: Self| #[trigger] a.neg_spec().val() == -a.val(),
